@@ -33,11 +33,14 @@ FUNCTIONS = ["molgri.molecules.transitions.DecompositionTool.get_decomposition (
              "molgri.io.GridReader.load_volumes/load_borders_array/load_distances_array/load_adjacency_array",
              "FullGrid.get_full_borders/get_full_distances/get_full_adjacency/get_total_volumes (and everything under C02)",
              "molgri.molecules.transitions.SQRA.get_rate_matrix"]
-STUBS = c02.STUBS + ["scipy.sparse.save_npz/load_npz and np.save/np.load -> identity on (format, index arrays, data) -- checked against real files in the self-test",
+STUBS = c02.STUBS + ["scipy.sparse.linalg.eigs (ARPACK) -> contract stub: k arbitrary pairwise distinct real eigenvalues in arbitrary order with their vectors, a fresh set per call; refuses operator keywords",
+                     "scipy.sparse.save_npz/load_npz and np.save/np.load -> identity on (format, index arrays, data) -- checked against real files in the self-test",
                      "exp -> uninterpreted function with positivity and the homomorphism instances named by the harness"]
 ASSUMPTIONS = c02.ASSUMPTIONS + ["energy differences of adjacent cells below the 500 kJ/mol cap for the balance claims"]
 OUTSIDE = ["the numerical part of the spectral sentence: accuracy of ARPACK's eigenpairs, 'largest is zero', agreement with a dense eigen-solver (Fortran, iterative, "
-           "tolerance-based); the Python glue around it (transpose, descending sort, pairing of vectors with values) IS covered with eigs as a contract stub",
+           "tolerance-based); the Python glue around it (transpose, descending sort, pairing of vectors with values) IS covered with eigs as a contract stub, "
+           "also for one tool asked twice with two distinct symbolic shifts (shape spectral_shift: two calls, k=2); what ARPACK returns for a caller-supplied "
+           "shift-invert operator is outside the stand-in's contract (decided by the replay on real scipy alone: reproduced -> violation, else harness error)",
            "Cartesian position mode", "sizes beyond the bound"]
 RT2 = 2 * z3.RealVal(str(__import__("fractions").Fraction(kB * N_A)))
 
@@ -45,7 +48,8 @@ RT2 = 2 * z3.RealVal(str(__import__("fractions").Fraction(kB * N_A)))
 def bounds(tier):
     q = [(1, 2, 2), (2, 1, 2), (3, 1, 2), (2, 2, 2), (1, 3, 2)]
     t = q + [(3, 2, 2), (2, 2, 3), (2, 3, 2), (3, 1, 3)]
-    return {"(n_b,n_o,n_t)": q if tier == "quick" else t, "direction_patterns": "all symmetric patterns", "rotation_patterns": "all (symbolic, by forking)"}
+    return {"(n_b,n_o,n_t)": q if tier == "quick" else t, "direction_patterns": "all symmetric patterns", "rotation_patterns": "all (symbolic, by forking)",
+            "spectral_glue_k": [2, 3, 4] if tier == "quick" else [2, 3, 4, 5], "spectral_shift": {"calls_on_one_tool": 2, "k": 2, "shifts": "symbolic reals, pairwise distinct"}}
 
 
 def shapes(tier, seed):
@@ -64,6 +68,7 @@ def shapes(tier, seed):
     out.sort(key=lambda s: s["n_b"] * s["n_o"] * s["n_t"])
     for k in ((2, 3, 4) if tier == "quick" else (2, 3, 4, 5)):
         out.insert(0, {"kind": "spectral_glue", "k": k, "n": 3, "n_b": 0, "n_o": 0, "n_t": 0})
+    out.insert(0, {"kind": "spectral_shift", "k": 2, "n": 3, "calls": 2, "n_b": 0, "n_o": 0, "n_t": 0})
     return out
 
 
@@ -184,9 +189,122 @@ def replay_glue(cex):
     return {"reproduced": bool(bad), "detail": str(bad[:2])}
 
 
+def run_shift(shape):
+    """One DecompositionTool asked `calls` times with DIFFERENT symbolic spectral shifts s_0, s_1, ... (arbitrary reals, pairwise
+    distinct).  ARPACK is the contract stub of `run_glue`, extended by the shift: it answers for the shift it is HANDED, and its
+    contract covers no caller-supplied operator.  Proved for all shift values: call c hands the solver exactly s_c (not the shift of
+    an earlier call, not None, not a rounded value), asks for the transpose, and the answer of call c is the sorted answer the solver
+    gave to call c (nothing cached from an earlier call)."""
+    import molgri.molecules.transitions as T
+    k, n, calls = shape["k"], shape["n"], shape["calls"]
+    sig = [z3.Real(f"sigma{c}") for c in range(calls)]
+    lam = [[z3.Real(f"lam{c}_{i}") for i in range(k)] for c in range(calls)]
+    vec = [[[z3.Real(f"vec{c}_{r}_{i}") for i in range(k)] for r in range(n)] for c in range(calls)]
+    eng = Engine()
+    prover = Prover(timeout_ms=10000, budget_s=300)
+    acc = Acc(shape)
+    eng.assume_global(*[sig[a] != sig[b] for a in range(calls) for b in range(a + 1, calls)])
+    for c in range(calls):
+        eng.assume_global(*[z3.Or(lam[c][i] < lam[c][j], lam[c][j] < lam[c][i]) for i in range(k) for j in range(i + 1, k)])
+
+    class Mat:
+        T = "transposed-matrix"
+
+    def body():
+        seen = []
+
+        def fake_eigs(A, k=6, tol=0, maxiter=None, which="LM", sigma=None, **kw):
+            from symx.core import Unsupported
+            extra = {k_: v for k_, v in kw.items() if v is not None and k_ not in ("v0", "ncv", "return_eigenvectors")}
+            if extra:
+                raise Unsupported(f"eigs contract stub: keyword(s) {sorted(extra)} are not covered by the contract")
+            if A != "transposed-matrix":
+                raise AssertionError("the decomposition must be asked for the TRANSPOSE (left eigenvectors)")
+            c = len(seen)
+            seen.append(sigma)
+            return sarr([SR(x) for x in lam[c]]), sarr([[SR(x) for x in row] for row in vec[c]])
+
+        with bound(T, eigs=fake_eigs, print=noprint):
+            tool = T.DecompositionTool(Mat())
+            outs = [tool.get_decomposition(tol=1e-5, maxiter=1000, which="LR", sigma=SR(sig[c]), k=k) for c in range(calls)]
+        return outs, seen
+
+    for path in eng.explore(body):
+        acc.begin(prover, path)
+        if path.kind == "exc":
+            acc.structural("no_exception", False, detail=repr(path.value) + (path.tb or "")[-600:], cex={"kind": "exception", "exc": type(path.value).__name__, "model": c02._model(path)})
+            continue
+        if acc.reachable is not True:
+            acc.reach(prover.satisfiable(path.premises))
+        outs, seen = path.value
+        m = c02._model(path)
+        acc.structural("one_solver_call_per_decomposition", len(seen) == calls, detail=len(seen), cex={"model": m})
+        if len(seen) != calls:
+            continue
+        claims = []
+        for c in range(calls):
+            ok = isinstance(seen[c], SR) or isinstance(seen[c], (int, float))
+            acc.structural(f"shift_handed_to_solver[{c}]", ok, detail=repr(seen[c]), cex={"model": m})
+            if not ok:
+                continue
+            claims.append((f"shift_is_the_requested_one[{c}]", z(seen[c]) == sig[c]))
+            ev, evec = outs[c]
+            if tuple(np.shape(ev)) != (k,) or tuple(np.shape(evec)) != (n, k):
+                acc.structural(f"shapes[{c}]", False, detail=(np.shape(ev), np.shape(evec)), cex={"model": m})
+                continue
+            claims += [(f"descending[{c},{j}]", z(ev[j]) >= z(ev[j + 1])) for j in range(k - 1)]
+            for j in range(k):
+                claims.append((f"answer_of_this_call[{c},{j}]", z3.Or([z(ev[j]) == lam[c][i] for i in range(k)])))
+                for r in range(n):
+                    claims.append((f"vector_belongs_to_value[{c},{j},{r}]", z3.And([z3.Implies(z(ev[j]) == lam[c][i], z(evec[r, j]) == vec[c][r][i]) for i in range(k)])))
+        acc.add(prover.prove_all(path.premises, claims), make_cex=lambda r_: {"model": m})
+    return acc.result(eng.stats, prover.stats)
+
+
+def replay_shift(cex):
+    """Real scipy, real ARPACK: one tool asked with two different shifts against a fresh tool per shift and against the dense solver."""
+    import contextlib, io
+    import molgri.molecules.transitions as T
+    from scipy.sparse import csr_array
+    model = cex.get("model", {}) or {}
+    # a reversible, connected 6-cell rate matrix (detailed balance w.r.t. pi), eigenvalues real and simple
+    rng = np.random.default_rng(14)
+    nn = 6
+    pi = rng.uniform(0.5, 2.0, nn)
+    S = np.triu(rng.uniform(0.2, 1.0, (nn, nn)), 1)
+    S = S + S.T
+    Q = S * np.sqrt(pi[None, :] / pi[:, None])
+    Q = Q - np.diag(Q.sum(axis=1))
+    dense = np.sort(np.linalg.eigvals(Q.T).real)[::-1]
+    shifts = [fval(model, "sigma0", 0.05), fval(model, "sigma1", float(dense[-1]) - 0.3)]
+    shifts = [s if np.min(np.abs(dense - s)) > 1e-6 else s + 0.0123 for s in shifts]
+    if abs(shifts[0] - shifts[1]) < 1e-9:
+        shifts[1] = float(dense[-1]) - 0.3
+    # make sure the two shifts select different eigenvalues, otherwise a stale answer is invisible
+    near = [set(np.argsort(np.abs(dense - s))[:2].tolist()) for s in shifts]
+    if near[0] == near[1]:
+        shifts = [0.05, float(dense[-1]) - 0.3]
+    bad = []
+    for order in (shifts, shifts[::-1]):
+        try:
+            with contextlib.redirect_stdout(io.StringIO()):
+                tool = T.DecompositionTool(csr_array(Q))
+                for s in order:
+                    ev, evec = tool.get_decomposition(tol=1e-10, maxiter=10000, which="LM", sigma=s, k=2)
+                    ref, _ = T.DecompositionTool(csr_array(Q)).get_decomposition(tol=1e-10, maxiter=10000, which="LM", sigma=s, k=2)
+                    want = np.sort(dense[np.argsort(np.abs(dense - s))[:2]])[::-1]
+                    if not np.allclose(ev, want, atol=1e-6):
+                        bad.append(f"shifts asked in order {order}: for sigma={s} the tool returned {ev.tolist()}, the dense solver's two eigenvalues nearest sigma are {want.tolist()} (fresh tool: {ref.tolist()})")
+        except Exception as e:
+            bad.append(f"shifts {order}: {type(e).__name__}: {e}")
+    return {"reproduced": bool(bad), "detail": str(bad[:2])}
+
+
 def run_shape(shape):
     if shape.get("kind") == "spectral_glue":
         return run_glue(shape)
+    if shape.get("kind") == "spectral_shift":
+        return run_shift(shape)
     import molgri.space.fullgrid as F
     import molgri.space.translations as TR
     import molgri.space.voronoi as Vm
@@ -357,6 +475,8 @@ def run_shape(shape):
 def replay(cex):
     if cex["shape"].get("kind") == "spectral_glue":
         return replay_glue(cex)
+    if cex["shape"].get("kind") == "spectral_shift":
+        return replay_shift(cex)
     import contextlib, io, shutil
     import molgri.io as IO
     import molgri.molecules.transitions as T
